@@ -58,6 +58,15 @@ def assume(cond):
     return True
 
 
+def _symbolic_side_exhausted(node):
+    """below the chain of 'premature realize' nodes (one per argument), is the symbolic subtree exhausted?"""
+    n = 0
+    while type(node).__name__ == 'ParallelNode' and n < 64:
+        node = node.negative
+        n += 1
+    return n > 0 and type(node).__name__ != 'NodeStem' and node.is_exhausted()
+
+
 def _refresh(node, depth=0):
     name = type(node).__name__
     if name in ('NodeStem', 'SearchLeaf') or depth > 5000:
@@ -179,6 +188,11 @@ def explore(fn, deadline_wall, region=None, max_paths=1000000, per_path_timeout=
             res['trace'] = failing[1]
             break
         if exhausted:
+            break
+        if res['unknown'] and res['paths'] % 8 == 0 and _symbolic_side_exhausted(search_root.child):
+            # every symbolic path has been explored and some ended UNKNOWN: what CrossHair would do from here on is
+            # sample concrete argument values ("premature realize"), which can refute but never confirm
+            res['detail'] = 'symbolic paths exhausted, %d of them unknown' % res['unknown']
             break
     res['explore_s'] = round(time.time() - t_start, 3)
     res['unknown_reasons'] = sorted(set(res['unknown_reasons']))[:5]
